@@ -165,6 +165,7 @@ def run(ctx):
                 "fault_short_0", "fault_short_partial", "fault_error_after_full_write", "fault_not_reached",
                 "sys_cases_eof", "sys_eof_mid_b", "sys_eof_mid_h", "sys_eof_mid_w", "sys_eof_mid_l", "sys_eof_mid_d",
                 "sys_eof_mid_s", "sys_eof_mid_z",
+                "sys_cases_rdend", "sys_rdend_value_straddles_buffer_end", "sys_rdend_second_buffer", "sys_frag_p",
                 "cases_dx_sys", "cases_dx_rand", "dx_write_failed", "dx_write_accepted_after_peer_close",
                 "dx_send_error", "dx_close_error", "dx_recv_value_after_send_fault", "dx_recv_expect_value",
                 "dx_recv_expect_eof", "dx_recv_expect_wb"]
@@ -182,7 +183,13 @@ def run(ctx):
         "over the real p2p.Pipe in flush-acknowledge rounds; plus the systematic boundary enumeration (value of "
         "every kind ending delta in {0..20} bytes around the 64 KiB write buffer / 1 MiB read buffer end) and the "
         "enumeration of streams that end inside a value (every kind, every cut of the fixed-width values and of the "
-        "length prefix, body cuts at 1 byte / 64 KiB / 1 MiB / last byte); fault sessions: the N-th transport Write "
+        "length prefix, body cuts at 1 byte / 64 KiB / 1 MiB / last byte) and the read-buffer-end enumeration planned "
+        "by case index (len(ReadBuf) measured on a live Conn; one transport read that was offered the whole free buffer "
+        "stops d = 1..20 bytes before its end, after 0..3 misaligning bytes and a data value served from the window "
+        "that leaves r = 1..width-1 bytes of the next value - byte, uint16, uint32, label, length header of data / "
+        "string / size list - so that it straddles the stop and, when width > d + r, the buffer end; then reads of 1 "
+        "byte / exactly d bytes / the rest; the same in the second buffer after a filler of exactly len(ReadBuf) bytes; "
+        "thorough: full product, quick: the third (case + seed) mod 3 with r rotating); fault sessions: the N-th transport Write "
         "(N = every chunk boundary of a fixed script and 0..7 on random scripts) fails after 0 / 1 / few / 65535 / "
         "65536 / all bytes, sticky or transient, with the failing Write held until the next chunk is queued so that "
         "the asynchronous error report is reproducible; duplex / fault sessions: two Conns over a full-duplex "
